@@ -737,9 +737,15 @@ func (p *sessionPort) exec(f []string) []string {
 		c := &asyncCall{tag: name, quit: make(chan struct{}), done: make(chan error, 1), closer: true}
 		p.calls = append(p.calls, c)
 		go func() {
-			if name == "close" {
+			switch {
+			case name == "close":
 				c.done <- cl.Close()
-			} else {
+			case len(f) > 1 && f[1] == "quit":
+				// the quit signal is there already: with the write lock held elsewhere only this branch can be taken
+				q := make(chan struct{})
+				close(q)
+				c.done <- cl.Disconnect(q)
+			default:
 				c.done <- cl.Disconnect(nil)
 			}
 		}()
